@@ -988,20 +988,37 @@ func (t *vkTask) runSelfAlias() {
 							vkApply(twin, pre)
 							desc += " " + pre.name
 						}
-						own := vkSlices(n)[w]
-						cp := append(Kinds(nil), vkSlices(twin)[w]...)
 						verb := "DeleteKinds"
 						if add {
 							verb = "AddKinds"
 						}
-						if p := vkCallEdit(n, add, own); p != "" {
-							t.fail("self-alias %s; n.%s(n.%s...): panic %s", desc, verb, which[w], p)
-							continue
-						}
-						vkCallEdit(twin, add, cp)
-						got, want := vkRead(n), vkRead(twin)
-						if got.bad != "" || got.k != want.k || got.a != want.a || got.d != want.d {
-							t.fail("self-alias %s; n.%s(n.%s...) gives Kinds=%s Added=%s Deleted=%s%s; the same call with a copy of that slice gives Kinds=%s Added=%s Deleted=%s", desc, verb, which[w], vkFmt(n.Kinds), vkFmt(n.AddedKinds), vkFmt(n.DeletedKinds), got.bad, vkFmt(twin.Kinds), vkFmt(twin.AddedKinds), vkFmt(twin.DeletedKinds))
+						// the whole slice and every sub-slice own[lo:hi] of it (a leading part, a trailing part, the middle)
+						full := len(vkSlices(n)[w])
+						for lo := 0; lo <= full; lo++ {
+							for hi := lo; hi <= full; hi++ {
+								if hi == lo && !(lo == 0 && full == 0) {
+									continue
+								}
+								// a fresh pair of nodes for every window
+								n, twin = vkBuild(arr, layout), vkBuild(arr, layout)
+								if pre != nil {
+									vkApply(n, pre)
+									vkApply(twin, pre)
+								}
+								t.cases++
+								own := vkSlices(n)[w][lo:hi]
+								cp := append(Kinds(nil), vkSlices(twin)[w][lo:hi]...)
+								window := fmt.Sprintf("n.%s[%d:%d]", which[w], lo, hi)
+								if p := vkCallEdit(n, add, own); p != "" {
+									t.fail("self-alias %s; n.%s(%s...): panic %s", desc, verb, window, p)
+									continue
+								}
+								vkCallEdit(twin, add, cp)
+								got, want := vkRead(n), vkRead(twin)
+								if got.bad != "" || got.k != want.k || got.a != want.a || got.d != want.d {
+									t.fail("self-alias %s; n.%s(%s...) gives Kinds=%s Added=%s Deleted=%s%s; the same call with a copy of that slice gives Kinds=%s Added=%s Deleted=%s", desc, verb, window, vkFmt(n.Kinds), vkFmt(n.AddedKinds), vkFmt(n.DeletedKinds), got.bad, vkFmt(twin.Kinds), vkFmt(twin.AddedKinds), vkFmt(twin.DeletedKinds))
+								}
+							}
 						}
 					}
 				}
